@@ -101,12 +101,6 @@ theorem transfers_strictGuard {c c' : Bool} {r : TcResult} :
 
 theorem transfers_refl (r : TcResult) : Transfers r r := fun _ h => h
 
-theorem lubAll_single_perm (t : CedarType) : lubAll .permissive [t] = some t := by
-  unfold lubAll
-  simp only [List.foldl_cons, List.foldl_nil, Option.bind_some]
-  rw [lub.eq_def]
-  simp [isSubtype]
-
 theorem typeOfList_flat {m : ValidationMode} {s : Schema} {env : RequestEnv} {caps : Capabilities} :
     ∀ {es : List Expr} {τs : List CedarType}, es.all FlatExpr = true → typeOfList m s env es caps = .ok τs →
       ∀ t, t ∈ τs → t.flat = true
@@ -139,7 +133,7 @@ theorem sip {s : Schema} {env : RequestEnv} {q : Request} (hWF : SchemaWF2 s) (h
   | .slot sl, _, _, caps => by rw [(leaf_modes s env caps).2.2 sl]; exact transfers_refl _
   | .unknown _ _, _, _, caps => by intro x hx; simp [typeOf] at hx
   | .and a b, hf, hs, caps => by
-    simp only [InFragment2, Bool.and_eq_true] at hf
+    simp only [InFragment2, InFragmentM, Bool.and_eq_true] at hf
     simp only [SIPFragment, Bool.and_eq_true] at hs
     have iha := sip hWF henv a hf.1 hs.1
     have ihb := sip hWF henv b hf.2 hs.2
@@ -158,7 +152,7 @@ theorem sip {s : Schema} {env : RequestEnv} {q : Request} (hWF : SchemaWF2 s) (h
         | error err => rw [hB] at hx; cases hx
         | ok pb => rw [hB] at hx; rw [(ihb _).expect _ _ hB]; exact hx
   | .or a b, hf, hs, caps => by
-    simp only [InFragment2, Bool.and_eq_true] at hf
+    simp only [InFragment2, InFragmentM, Bool.and_eq_true] at hf
     simp only [SIPFragment, Bool.and_eq_true] at hs
     have iha := sip hWF henv a hf.1 hs.1
     have ihb := sip hWF henv b hf.2 hs.2
@@ -177,9 +171,9 @@ theorem sip {s : Schema} {env : RequestEnv} {q : Request} (hWF : SchemaWF2 s) (h
         | error err => rw [hB] at hx; cases hx
         | ok pb => rw [hB] at hx; rw [(ihb _).expect _ _ hB]; exact hx
   | .ite c t e, hf, hs, caps => by
-    simp only [InFragment2, Bool.and_eq_true] at hf
+    simp only [InFragment2, InFragmentM, Bool.and_eq_true] at hf
     simp only [SIPFragment, Bool.and_eq_true, Bool.or_eq_true] at hs
-    obtain ⟨⟨hfc, hft⟩, hfe⟩ := hf
+    obtain ⟨⟨⟨hfc, hft⟩, hfe⟩, _⟩ := hf
     obtain ⟨⟨⟨hsc, hst⟩, hse⟩, hflat⟩ := hs
     have ihc := sip hWF henv c hfc hsc
     have iht := sip hWF henv t hft hst
@@ -209,7 +203,7 @@ theorem sip {s : Schema} {env : RequestEnv} {q : Request} (hWF : SchemaWF2 s) (h
           intro y hy
           rw [← lub_flat_modes hflat']; exact hy
   | .unaryApp op a, hf, hs, caps => by
-    simp only [InFragment2] at hf
+    simp only [InFragment2, InFragmentM] at hf
     simp only [SIPFragment] at hs
     have iha := sip hWF henv a hf hs
     intro x hx
@@ -230,7 +224,7 @@ theorem sip {s : Schema} {env : RequestEnv} {q : Request} (hWF : SchemaWF2 s) (h
       | error err => rw [hA] at hx; cases hx
       | ok pa => rw [hA] at hx; rw [(iha caps).expect _ _ hA]; exact hx
   | .binaryApp op a b, hf, hs, caps => by
-    simp only [InFragment2, Bool.and_eq_true] at hf
+    simp only [InFragment2, InFragmentM, Bool.and_eq_true] at hf
     simp only [SIPFragment, Bool.and_eq_true] at hs
     have iha := sip hWF henv a hf.1.2 hs.1
     have ihb := sip hWF henv b hf.2 hs.2
@@ -291,11 +285,11 @@ theorem sip {s : Schema} {env : RequestEnv} {q : Request} (hWF : SchemaWF2 s) (h
           | none => simp only [htag] at hy; cases hy
           | some t =>
             simp only [htag, lubAll_single] at hy
-            simp only [lubAll_single_perm]
+            simp only [lubAll_single]
             exact hy
       · cases hy
   | .call fn args, hf, hs, caps => by
-    simp only [InFragment2] at hf
+    simp only [InFragment2, InFragmentM] at hf
     simp only [SIPFragment] at hs
     have ih := sipList hWF henv args hf hs
     intro x hx
@@ -322,7 +316,7 @@ theorem sip {s : Schema} {env : RequestEnv} {q : Request} (hWF : SchemaWF2 s) (h
             exact Or.inl h
           rw [if_neg hnf']; exact hx
   | .getAttr e a, hf, hs, caps => by
-    simp only [InFragment2] at hf
+    simp only [InFragment2, InFragmentM] at hf
     simp only [SIPFragment] at hs
     have ihe := sip hWF henv e hf hs
     intro x hx
@@ -331,7 +325,7 @@ theorem sip {s : Schema} {env : RequestEnv} {q : Request} (hWF : SchemaWF2 s) (h
     | error err => rw [hE] at hx; cases hx
     | ok pe => rw [hE] at hx; rw [(ihe caps).expect _ _ hE]; exact hx
   | .hasAttr e a, hf, hs, caps => by
-    simp only [InFragment2] at hf
+    simp only [InFragment2, InFragmentM] at hf
     simp only [SIPFragment] at hs
     have ihe := sip hWF henv e hf hs
     intro x hx
@@ -340,7 +334,7 @@ theorem sip {s : Schema} {env : RequestEnv} {q : Request} (hWF : SchemaWF2 s) (h
     | error err => rw [hE] at hx; cases hx
     | ok pe => rw [hE] at hx; rw [(ihe caps).expect _ _ hE]; exact hx
   | .like e pat, hf, hs, caps => by
-    simp only [InFragment2] at hf
+    simp only [InFragment2, InFragmentM] at hf
     simp only [SIPFragment] at hs
     have ihe := sip hWF henv e hf hs
     intro x hx
@@ -349,7 +343,7 @@ theorem sip {s : Schema} {env : RequestEnv} {q : Request} (hWF : SchemaWF2 s) (h
     | error err => rw [hE] at hx; cases hx
     | ok pe => rw [hE] at hx; rw [(ihe caps).expect _ _ hE]; exact hx
   | .is e ty, hf, hs, caps => by
-    simp only [InFragment2] at hf
+    simp only [InFragment2, InFragmentM] at hf
     simp only [SIPFragment] at hs
     have ihe := sip hWF henv e hf hs
     intro x hx
@@ -358,9 +352,9 @@ theorem sip {s : Schema} {env : RequestEnv} {q : Request} (hWF : SchemaWF2 s) (h
     | error err => rw [hE] at hx; cases hx
     | ok pe => rw [hE] at hx; rw [(ihe caps).expect _ _ hE]; exact hx
   | .set es, hf, hs, caps => by
-    simp only [InFragment2] at hf
+    simp only [InFragment2, InFragmentM, Bool.and_eq_true] at hf
     simp only [SIPFragment, Bool.and_eq_true] at hs
-    have ih := sipList hWF henv es hf hs.1
+    have ih := sipList hWF henv es hf.1 hs.1
     intro x hx
     simp only [typeOf] at hx ⊢
     cases hL : typeOfList .strict s env es caps with
@@ -372,7 +366,7 @@ theorem sip {s : Schema} {env : RequestEnv} {q : Request} (hWF : SchemaWF2 s) (h
       · simp only [ValidationMode.isStrict, Bool.false_and, Bool.false_eq_true, if_false]
         rw [← lubAll_flat_modes (typeOfList_flat hs.2 hL)]; exact hx
   | .record kvs, hf, hs, caps => by
-    simp only [InFragment2, Bool.and_eq_true] at hf
+    simp only [InFragment2, InFragmentM, Bool.and_eq_true] at hf
     simp only [SIPFragment] at hs
     have ih := sipKVs hWF henv kvs hf.1 hs
     intro x hx
@@ -385,7 +379,7 @@ theorem sipList {s : Schema} {env : RequestEnv} {q : Request} (hWF : SchemaWF2 s
       typeOfList .strict s env es caps = .ok τs → typeOfList .permissive s env es caps = .ok τs
   | [], _, _, caps, τs, h => by simp only [typeOfList] at h ⊢; exact h
   | e :: es, hf, hs, caps, τs, h => by
-    simp only [InFragment2List, Bool.and_eq_true] at hf
+    simp only [InFragment2List, InFragmentMList, Bool.and_eq_true] at hf
     simp only [SIPFragmentList, Bool.and_eq_true] at hs
     obtain ⟨τ, c, τs', h1, h2, rfl⟩ := typeOfList_cons h
     simp only [typeOfList]
@@ -396,7 +390,7 @@ theorem sipKVs {s : Schema} {env : RequestEnv} {q : Request} (hWF : SchemaWF2 s)
       typeOfKVs .strict s env kvs caps = .ok attrs → typeOfKVs .permissive s env kvs caps = .ok attrs
   | [], _, _, caps, attrs, h => by simp only [typeOfKVs] at h ⊢; exact h
   | (k, e) :: es, hf, hs, caps, attrs, h => by
-    simp only [InFragment2KVs, Bool.and_eq_true] at hf
+    simp only [InFragment2KVs, InFragmentMKVs, Bool.and_eq_true] at hf
     simp only [SIPFragmentKVs, Bool.and_eq_true] at hs
     obtain ⟨τ, c, attrs', h1, h2, rfl⟩ := typeOfKVs_cons h
     simp only [typeOfKVs]
